@@ -14,7 +14,7 @@ def keyDesc : P KeyDesc := do
 
 def spsso : P SPSSO := do
   let acs ← list endpoint; let ks ← list keyDesc
-  pure ⟨acs, ks⟩
+  pure ⟨acs, ks, []⟩
 
 def entityDesc : P EntityDesc := do
   let id ← str; let ds ← list spsso
